@@ -65,7 +65,7 @@ class C12(Prop):
     id = "C12"
     lean_module = "ProductMD.Properties.C12"
     quick_budget = 1800
-    thorough_budget = 24000
+    thorough_budget = 12000     # ~9 min; 24000 took 18 min
     rule = ("histories of add calls (rpms / modules / extra_files round-robin; valid, one-parameter-corrupted and randomly mutated "
             "arguments; repeats; the same entry under several variants/arches; read-only calls interleaved: dump_for_tree with bases that "
             "prefix / do not prefix / only textually prefix the stored paths, a second export with another base, obj[variant], dumps()) run step by step on the real object and on the Lean "
